@@ -228,6 +228,23 @@ def _resolve_in_loop(loop, e):
     return e
 
 
+def _is_const(ctx, fi, a):
+    try:
+        lenalg.folder(ctx, fi)(a)
+        return True
+    except NotConst:
+        return False
+
+
+def _pos_const(ctx, fi, a):
+    """a literal or a module/class constant with a positive integer value"""
+    try:
+        v = lenalg.folder(ctx, fi)(a)
+        return isinstance(v, int) and not isinstance(v, bool) and v > 0
+    except NotConst:
+        return False
+
+
 def check_counter(ctx, fi, g, loop, head, ent, nonneg_funcs):
     var = ent['var']
     ups = _updates(loop, var)
@@ -320,13 +337,14 @@ def check_counter(ctx, fi, g, loop, head, ent, nonneg_funcs):
                 isinstance(a, ast.Call) and norm(a.func) == 'len' and isinstance(a.args[0], ast.Subscript) and
                 isinstance(a.args[0].slice, ast.Slice) and a.args[0].slice.lower is not None and norm(a.args[0].slice.lower) == var
                 and a.args[0].slice.upper is None and ('%s < len(%s)' % (var, norm(a.args[0].value))) == norm(loop.test)
-                for a in e.args) and all(not isinstance(a, ast.Constant) or a.value > 0 for a in e.args)
+                for a in e.args) and all(not isinstance(a, (ast.Constant, ast.Name)) or (isinstance(a, ast.Name) and a.id == var) or _pos_const(ctx, fi, a) or
+                                         not _is_const(ctx, fi, a) for a in e.args)
             if not ok:
                 problems.append('step of `%s` is not min(len(S[%s:]), positive const) under `%s < len(S)`' % (txt, var, var))
         elif why == 'min_with_counter':
             e = _resolve_in_loop(loop, step)
             ok = isinstance(e, ast.Call) and norm(e.func) == 'min' and any(isinstance(a, ast.Name) and a.id == var for a in e.args) and \
-                all((isinstance(a, ast.Name) and a.id == var) or (isinstance(a, ast.Constant) and a.value > 0) for a in e.args) and \
+                all((isinstance(a, ast.Name) and a.id == var) or _pos_const(ctx, fi, a) for a in e.args) and \
                 norm(loop.test) == '%s > 0' % var
             if not ok:
                 problems.append('step of `%s` is not min(%s, positive const) under `%s > 0`' % (txt, var, var))
@@ -368,6 +386,18 @@ def check_bisect(ctx, fi, g, loop, head, ent):
     return probs
 
 
+def _short_read_test(ctx, fi, t, var, size):
+    if not (isinstance(t, ast.Compare) and len(t.ops) == 1 and isinstance(t.ops[0], (ast.NotEq, ast.Lt)) and norm(t.left) == 'len(%s)' % var):
+        return False
+    c = t.comparators[0]
+    if norm(c) == size:
+        return True
+    try:
+        return str(lenalg.folder(ctx, fi)(c)) == size
+    except NotConst:
+        return False
+
+
 def check_read_until_short(ctx, fi, g, loop, head, ent):
     var, size = ent['read_var'], ent['size']
     reads = []
@@ -380,7 +410,13 @@ def check_read_until_short(ctx, fi, g, loop, head, ent):
         return ['no `%s = <fp>.read(...)` in the loop' % var]
     for r in reads:
         a = r.ast.value.args
-        if not a or norm(a[0]) != size:
+        same = bool(a) and norm(a[0]) == size
+        if a and not same:
+            try:
+                same = str(lenalg.folder(ctx, fi)(a[0])) == size
+            except NotConst:
+                same = False
+        if not same:
             probs.append('read size %s is not the constant %s' % (norm(a[0]) if a else None, size))
         try:
             if int(size) <= 0:
@@ -389,7 +425,7 @@ def check_read_until_short(ctx, fi, g, loop, head, ent):
             probs.append('read size not constant')
     exits = []
     for n in g.nodes:
-        if head in n.loops and n.kind == 'test' and norm(n.ast) in ('len(%s) != %s' % (var, size), 'len(%s) < %s' % (var, size)):
+        if head in n.loops and n.kind == 'test' and _short_read_test(ctx, fi, n.ast, var, size):
             tb = [m for m, lab in n.succ if lab == 'T']
             if tb and (isinstance(tb[0].ast, (ast.Break, ast.Raise, ast.Return))):
                 exits.append(n)
@@ -499,9 +535,31 @@ def term(ctx):
             ent = index.get((q, t, i))
             key = '%s|while %s#%d' % (q, t, i)
             if ent is None:
+                # the test text changed: try the table entries of this function that match no loop any more
+                for k2, e2 in index.items():
+                    if k2[0] == q and k2 not in used and not any(k2 == (q, norm(l.test), 0) for l in loops if isinstance(l, ast.While)):
+                        try:
+                            if e2['idiom'] == 'counter' and not check_counter(ctx, fi, g, loop, head, e2, nonneg):
+                                ent = e2
+                            elif e2['idiom'] == 'bisect' and not check_bisect(ctx, fi, g, loop, head, e2):
+                                ent = e2
+                            elif e2['idiom'] == 'read-until-short' and not check_read_until_short(ctx, fi, g, loop, head, e2):
+                                ent = e2
+                            elif e2['idiom'] == 'worklist' and norm(loop.test) == e2.get('queue') and not check_worklist(ctx, fi, g, loop, head, e2):
+                                ent = e2
+                        except (AnalysisError, KeyError):
+                            ent = None
+                        if ent is not None:
+                            used.add(k2)
+                            break
+                if ent is not None:
+                    obs.append(Ob('SA-TERM', key, True, ctx.loc(fi, loop), 'matches the tabulated idiom of this function (loop test rewritten)'))
+                    continue
                 why = _auto_counter(ctx, fi, g, loop, head)
+                if why is not None and _auto_bisect(ctx, fi, g, loop, head):
+                    why = None
                 if why is None:
-                    obs.append(Ob('SA-TERM', key, True, ctx.loc(fi, loop), 'bounded counter loop (recognised automatically)'))
+                    obs.append(Ob('SA-TERM', key, True, ctx.loc(fi, loop), 'bounded counter / bisection loop (recognised automatically)'))
                 else:
                     undecided.append('%s (%s)' % (key, why))
                 continue
@@ -531,6 +589,10 @@ def term(ctx):
             obs.append(Ob('SA-TERM', key, not probs, ctx.loc(fi, loop), '; '.join(probs)))
     for k, ent in index.items():
         if k not in used:
+            # a tabulated loop whose test text changed: fine as long as its function is still analysed and every `while`
+            # of it has been decided some other way (automatic idioms); otherwise the anchor is gone
+            if k[0] in R and not any(u.startswith(k[0] + '|') for u in undecided):
+                continue
             raise AnalysisError('anchor-vanished: loop %s `%s`#%d of the loops table is no longer reachable from open' % k)
     if undecided:
         # a loop that is not in the table and is not a plain bounded counter: termination is not decided either way
@@ -578,6 +640,21 @@ def _auto_counter(ctx, fi, g, loop, head):
     if not nodes or not _cycle_must_pass(ctx, fi, g, head, nodes):
         return 'a cycle through the body does not move the counter'
     return None
+
+
+def _auto_bisect(ctx, fi, g, loop, head):
+    """`while A < B:` with M = (A + B) // 2, A = M + 1 / B = M on every cycle (names taken from the loop itself)"""
+    t = loop.test
+    if not (isinstance(t, ast.Compare) and len(t.ops) == 1 and isinstance(t.ops[0], ast.Lt) and isinstance(t.left, ast.Name) and
+            isinstance(t.comparators[0], ast.Name)):
+        return False
+    lo, hi = t.left.id, t.comparators[0].id
+    mids = [n for n in ast.walk(loop) if isinstance(n, ast.Assign) and len(n.targets) == 1 and isinstance(n.targets[0], ast.Name) and
+            norm(n.value) in ('(%s + %s) // 2' % (lo, hi), '(%s + %s) // 2' % (hi, lo))]
+    if len(mids) != 1:
+        return False
+    mid = mids[0].targets[0].id
+    return not check_bisect(ctx, fi, g, loop, head, {'lo': lo, 'hi': hi, 'mid': mid})
 
 
 def _check_not_image_driven(ctx, R, fi):
